@@ -318,19 +318,19 @@ var FaultKinds = []string{"08006", "40001", "57014", "cancel"}
 // Probe counts the fault-hook invocations of one worker (one per statement, plus one per COMMIT,
 // explicit or implicit) and records the positions at which a writing transaction committed.
 type Probe struct {
-	mu      sync.Mutex
-	Worker  string
-	At      int    // position to fail (0: none)
-	Kind    string // SQLSTATE or "cancel"
-	OnlyCm  bool   // At counts writing commits instead of hook invocations (C31 commit failures)
-	cancel  context.CancelFunc
-	N       int      // hook invocations seen
-	Fired   bool     // the fault was injected
-	FiredSQL string  // statement that was failed
-	Commits []int    // positions (hook invocation numbers) of writing commits
-	Kinds   []string // statement kinds in order
+	mu            sync.Mutex
+	Worker        string
+	At            int    // position to fail (0: none)
+	Kind          string // SQLSTATE or "cancel"
+	OnlyCm        bool   // At counts writing commits instead of hook invocations (C31 commit failures)
+	cancel        context.CancelFunc
+	N             int      // hook invocations seen
+	Fired         bool     // the fault was injected
+	FiredSQL      string   // statement that was failed
+	Commits       []int    // positions (hook invocation numbers) of writing commits
+	Kinds         []string // statement kinds in order
 	lastCommitPos int
-	nCommitHooks int
+	nCommitHooks  int
 	// watch: per writing commit, the engine commit counter and the number of log rows of the ledger
 	Durable []durablePoint
 	ledger  string
@@ -429,10 +429,10 @@ func (p *Probe) Uninstall(e *Env) {
 // Program is the measured shape of a request's statement program on a given state: N hook positions
 // (statements and commits), Commits = positions at which a writing transaction commits.
 type Program struct {
-	N       int      `json:"n"`
-	Commits []int    `json:"commits"`
+	N       int   `json:"n"`
+	Commits []int `json:"commits"`
 	// Writes[j]: log rows of the ledger made durable by the j-th writing commit
-	Writes []int `json:"writes"`
+	Writes  []int    `json:"writes"`
 	Kinds   []string `json:"kinds,omitempty"`
 	Status  int      `json:"status"`
 	OK      bool     `json:"ok"`
@@ -520,25 +520,25 @@ func forgetEnv(e *Env) {
 
 // FaultObs is what can be observed of one faulted run.
 type FaultObs struct {
-	Fired      bool     `json:"fired"`
-	FiredSQL   string   `json:"firedSQL,omitempty"`
-	Status     int      `json:"status"`
-	OK         bool     `json:"ok"`
-	EmptyBody  bool     `json:"emptyBody"`
-	DumpEqual  bool     `json:"dumpEqual"` // pg.Dump snapshot of every table equal before/after
-	ObsEqual   bool     `json:"obsEqual"`  // env.Observe equal before/after
-	Events     int      `json:"events"`    // listener calls
-	EvAfterCm  bool     `json:"evAfterCommit"`
-	Followup   bool     `json:"followupOK"` // a harmless write sent afterwards is answered 2xx (nothing left locked)
-	Hash       string   `json:"hash"`       // snapshot hash after the run (comparable within one process only)
+	Fired     bool   `json:"fired"`
+	FiredSQL  string `json:"firedSQL,omitempty"`
+	Status    int    `json:"status"`
+	OK        bool   `json:"ok"`
+	EmptyBody bool   `json:"emptyBody"`
+	DumpEqual bool   `json:"dumpEqual"` // pg.Dump snapshot of every table equal before/after
+	ObsEqual  bool   `json:"obsEqual"`  // env.Observe equal before/after
+	Events    int    `json:"events"`    // listener calls
+	EvAfterCm bool   `json:"evAfterCommit"`
+	Followup  bool   `json:"followupOK"` // a harmless write sent afterwards is answered 2xx (nothing left locked)
+	Hash      string `json:"hash"`       // snapshot hash after the run (comparable within one process only)
 	// StateIdx: the indices j such that the snapshot after the run equals the snapshot a clean run of the same
 	// request shows after its j-th writing commit (0: the state before the request). Empty: none of them.
-	StateIdx []int `json:"stateIdx"`
-	Diff       []string `json:"diff,omitempty"`
-	Res        *ReqRes  `json:"res,omitempty"`
-	Incon      string   `json:"inconclusive,omitempty"`
-	EvKinds    []string `json:"evKinds"`
-	EvTx       []int    `json:"evTx"`
+	StateIdx []int    `json:"stateIdx"`
+	Diff     []string `json:"diff,omitempty"`
+	Res      *ReqRes  `json:"res,omitempty"`
+	Incon    string   `json:"inconclusive,omitempty"`
+	EvKinds  []string `json:"evKinds"`
+	EvTx     []int    `json:"evTx"`
 }
 
 // RunFaulted runs rq on a copy of base with the fault (at, kind) injected for `worker`. If onlyCommits,
